@@ -249,10 +249,94 @@ def translate(repo: Path):
             if tgt is None:
                 continue
             name_sites.append((f"{rel}:{n.lineno} {ast.unparse(tgt)} = {ast.unparse(val)[:60]}", _name_expr_ok(val)))
+
+    # 4. file-system operations applied to a checkpoint name (or a sibling derived from it) anywhere outside
+    #    save_parameters: removing / renaming / truncating such a file is not covered by the crash-safety theorems
+    fs_sites = []
+    for f in files:
+        try:
+            tree = ast.parse(f.read_text())
+        except SyntaxError:
+            continue
+        rel = str(f.relative_to(repo))
+        for fn_ in [x for x in ast.walk(tree) if isinstance(x, (ast.FunctionDef, ast.AsyncFunctionDef))]:
+            if rel.endswith("core/parameter_utils.py") and fn_.name == "save_parameters":
+                continue
+            tainted = set()
+            changed = True
+            while changed:  # locals computed from a checkpoint name (stale = self.checkpoint + suffix; for p in (...))
+                changed = False
+                for a in ast.walk(fn_):
+                    tg = None
+                    if isinstance(a, ast.Assign) and len(a.targets) == 1 and isinstance(a.targets[0], ast.Name):
+                        tg, src = a.targets[0].id, a.value
+                    elif isinstance(a, (ast.For, ast.comprehension)) and isinstance(a.target, ast.Name):
+                        tg, src = a.target.id, a.iter
+                    elif isinstance(a, ast.NamedExpr) and isinstance(a.target, ast.Name):
+                        tg, src = a.target.id, a.value
+                    if tg and tg not in tainted and _mentions_checkpoint(src, tainted):
+                        tainted.add(tg)
+                        changed = True
+            for c in ast.walk(fn_):
+                if isinstance(c, ast.Call) and _fs_mutation(c) and any(
+                        _mentions_checkpoint(a, tainted) for a in list(c.args) + [k.value for k in c.keywords]
+                        + ([c.func.value] if isinstance(c.func, ast.Attribute) else [])):
+                    fs_sites.append(f"{rel}:{c.lineno} {fn_.name}: {ast.unparse(c)[:70]}")
     if not any(sf for _, sf, _, _ in sites):
         ok = False
         notes.append("no checkpoint-writing call site found")
-    return _emit([(l, sf, lean_opt(s), lean_opt(o)) for l, sf, s, o in sites], ok, notes, raw=sites, names=name_sites)
+    return _emit([(l, sf, lean_opt(s), lean_opt(o)) for l, sf, s, o in sites], ok, notes, raw=sites, names=name_sites, fs=sorted(set(fs_sites)))
+
+
+
+_FS_FUNCS = {"remove", "unlink", "rename", "renames", "replace", "truncate", "rmdir", "removedirs", "rmtree", "move",
+             "copy", "copyfile", "copy2", "copytree", "write_text", "write_bytes", "touch", "symlink", "link",
+             "symlink_to", "hardlink_to", "link_to", "ftruncate", "mkfifo"}
+
+
+def _fs_mutation(c: ast.Call) -> bool:
+    """a call that can remove, rename, create-over or truncate a file: os.* / shutil.* / pathlib methods of those
+    names, and open(...) in a writing mode"""
+    f = c.func
+    name = f.attr if isinstance(f, ast.Attribute) else f.id if isinstance(f, ast.Name) else None
+    if name in _FS_FUNCS:
+        if isinstance(f, ast.Name):  # from os import remove
+            return True
+        if isinstance(f.value, ast.Name) and f.value.id in ("os", "shutil", "_os", "_shutil", "_sh"):
+            return True
+        # methods of path objects; str.replace(old, new) / list.remove(x) / dict.copy() are not file operations
+        if name in ("unlink", "rename", "write_text", "write_bytes", "touch", "rmdir", "symlink_to", "hardlink_to",
+                    "link_to", "truncate"):
+            return True
+        if name == "replace" and len(c.args) == 1 and not c.keywords:
+            return True
+        return False
+    if name == "open":
+        mode = None
+        pos = 1 if isinstance(f, ast.Name) or (isinstance(f, ast.Attribute) and isinstance(f.value, ast.Name)
+                                                and f.value.id in ("io", "os", "codecs", "gzip", "bz2", "lzma")) else 0
+        if len(c.args) > pos:
+            mode = c.args[pos]
+        for k in c.keywords:
+            if k.arg in ("mode", "flags"):
+                mode = k.value
+        if mode is None:
+            return False
+        if isinstance(mode, ast.Constant) and isinstance(mode.value, str):
+            return any(ch in mode.value for ch in "wax+")
+        return True  # computed mode: cannot tell
+    return False
+
+
+def _mentions_checkpoint(e, tainted=()) -> bool:
+    for n in ast.walk(e):
+        if isinstance(n, ast.Name) and ("checkpoint" in n.id.lower() or n.id in tainted):
+            return True
+        if isinstance(n, ast.Attribute) and "checkpoint" in n.attr.lower():
+            return True
+        if isinstance(n, ast.Constant) and isinstance(n.value, str) and "checkpoint" in n.value.lower():
+            return True
+    return False
 
 
 def _name_expr_ok(e, aliases=()) -> bool:
@@ -272,7 +356,7 @@ def _name_expr_ok(e, aliases=()) -> bool:
     return False
 
 
-def _emit(sites, ok, notes, raw=None, names=None):
+def _emit(sites, ok, notes, raw=None, names=None, fs=None):
     rows = ",\n  ".join(
         f'⟨"{l}", {"true" if sf else "false"}, {s}, {o}⟩' for l, sf, s, o in sites
     )
@@ -290,6 +374,11 @@ def _emit(sites, ok, notes, raw=None, names=None):
         "def nameSites : List (String × Bool) := [\n  "
         + ",\n  ".join('("%s", %s)' % (l.replace('\\', '/').replace('"', "'"), "true" if okk else "false") for l, okk in (names or []))
         + "\n]\n\n"
+        "/-- every file-system operation (remove / rename / open for writing / …) applied OUTSIDE save_parameters to an\n"
+        "    expression computed from a checkpoint name: such an operation is not covered by the crash-safety theorems -/\n"
+        "def fsSites : List String := ["
+        + ", ".join('"%s"' % l.replace('\\', '/').replace('"', "'") for l in (fs or []))
+        + "]\n\n"
         "end TTGen.C18_Callers\n"
     )
     return lean, ok, notes, (raw or [])
